@@ -7,7 +7,7 @@ package ch
 //@ import proto github.com/ClickHouse/ch-go/proto
 //@ import net net
 
-//@ valid (c *Client): c != nil ==> c.conn != nil && c.lg != nil && (c.otel ==> c.tracer != nil) && c.writer != nil && c.compressor != nil
+//@ valid (c *Client): c != nil ==> c.conn != nil && c.lg != nil && (c.otel ==> c.tracer != nil) && c.writer != nil && c.compressor != nil && wRI(c.writer)
 //@ global ErrClosed: ErrClosed != nil
 
 // ---------------------------------------------------------------------------
@@ -213,7 +213,7 @@ package ch
 //@ -- Ping: a closed client rejects the call without touching the connection; otherwise the ping is
 //@ -- flushed before the answer is awaited and only Pong yields success
 //@ contract (c *Client) Ping(ctx) (err) props(C04)
-//@   requires c != nil && ctx != nil && wRI(c.writer)
+//@   requires c != nil && ctx != nil
 //@   modifies all(c.writer), all(ctx), all(c.conn), all(c.reader), c.mux, all(c.tracer)
 //@   ensures old(c.closed) ==> err != nil && c.conn.olen == old(c.conn.olen) && c.conn.closes == old(c.conn.closes) && len(c.writer.buf.Buf) == old(len(c.writer.buf.Buf)) [C04] {closed-client-rejects-without-touching-conn}
 //@ callsite (*Client).packet
